@@ -1,4 +1,4 @@
-From IKE Require Import Lib.Base Lib.BaseLemmas Prim.Hmac Spec.PrfPlus Impl.EapAkaPrf.
+From IKE Require Import Lib.Base Lib.BaseLemmas Prim.Hmac Spec.PrfPlus Thm.PrfPlusLemmas Impl.EapAkaPrf.
 
 Section C16.
   Variable sha256 : bytes -> bytes.
@@ -20,17 +20,11 @@ Section C16.
     induction n as [|n IH].
     - reflexivity.
     - rewrite seq_S, fold_left_app, IH. cbn [fold_left prf_round Nat.add].
-      unfold stream. rewrite seq_S, map_app, concat_app. cbn [map concat].
-      rewrite app_nil_r. replace (1 + n)%nat with (S n) by lia.
-      replace (n + 1)%nat with (S n) by lia. cbn [T]. reflexivity.
+      rewrite stream_S. replace (n + 1)%nat with (S n) by lia. cbn [T]. reflexivity.
   Qed.
 
   Lemma stream_len K Sd n : length (stream (hmac sha256 64) K Sd n) = (32 * n)%nat.
-  Proof.
-    unfold stream. induction n as [|n IH]; [reflexivity|].
-    rewrite seq_S, map_app, concat_app, app_length, IH. cbn [map concat Nat.add].
-    rewrite app_nil_r. replace (1 + n)%nat with (S n) by lia. rewrite T_len. lia.
-  Qed.
+  Proof. apply PrfPlusLemmas.stream_len. intros; apply hmac_len. Qed.
 
   Theorem prf_correct ik ck id :
     ik <> [] -> ck <> [] ->
